@@ -90,14 +90,17 @@ def do_run(name, tier="quick", props=None):
     try:
         for prop in props:
             # evidence of runs against a changed tree must not overwrite the evidence of /repo
-            r = sh("cd %s && VERIF_EVIDENCE_DIR=%s VERIF_REPO=%s ./check %s --tier %s" % (ROOT, wt + "_evidence", wt, prop, tier))
+            # SEEDED_NO_BUILD=1: do not regenerate constants / rebuild (for concurrent use; the model keeps /repo's constants)
+            nb = " --no-build" if os.environ.get("SEEDED_NO_BUILD") else ""
+            r = sh("cd %s && VERIF_EVIDENCE_DIR=%s VERIF_REPO=%s ./check %s --tier %s%s" % (ROOT, wt + "_evidence", wt, prop, tier, nb))
             shutil.rmtree(wt + "_evidence", ignore_errors=True)
             lines = [l for l in r.stdout.splitlines() if l.startswith("VIOLATION") or l.startswith("== ") or l.startswith("KNOWN")]
             res[prop] = {"rc": r.returncode, "lines": lines[-6:]}
             print(name, prop, "rc=%d" % r.returncode, "| ".join(lines[-3:])[:300])
     finally:
         drop(wt)
-        sh("cd %s && ./build.sh" % ROOT)      # constants back to /repo's
+        if not os.environ.get("SEEDED_NO_BUILD"):
+            sh("cd %s && ./build.sh" % ROOT)      # constants back to /repo's
     meta.setdefault("checks", {})
     for prop, v in res.items():
         meta["checks"]["%s/%s" % (prop, tier)] = {"caught": v["rc"] == 1 and any(l.startswith("VIOLATION") for l in v["lines"]),
